@@ -266,6 +266,9 @@ func (x *Exec) callByContract(fr *Frame, st *State, ci ssa.CallInstruction, fc *
 	// frame
 	if !fc.Pure {
 		if fc.HasMod {
+			if !fc.Extern && fc.Trusted == "" {
+				x.usedExterns["declared frame of "+shortKey(fc.Key)+" (modifies clause is assumed, not checked: writes to objects the callee allocates cannot be told apart by the may-write analysis)"] = true
+			}
 			x.havocKeysCall(st, x.expandModifies(fc, env), args)
 		} else {
 			ks := x.p.effects.callEffects(fr.fn, ci)
